@@ -14,7 +14,13 @@ def sh(cmd, cwd=None):
 
 
 def main():
-    src, name = sys.argv[1], sys.argv[2]
+    old = {}
+    if sys.argv[1] == "--recheck":
+        name = sys.argv[2]
+        src = os.path.join(VERIF, "seeded", "benign", name)
+        old = json.load(open(os.path.join(src, "meta.json")))
+    else:
+        src, name = sys.argv[1], sys.argv[2]
     patch = os.path.join(src, "patch.diff") if os.path.isdir(src) else src
     rc, out = sh("git -C /repo status --porcelain")
     assert out.strip() == "", "/repo not clean: " + out
@@ -34,9 +40,16 @@ def main():
     readme = os.path.join(src, "README.md") if os.path.isdir(src) else None
     if readme and os.path.exists(readme):
         meta["description"] = open(readme).read()[:2000]
+    if "description" not in meta and old.get("description"):
+        meta["description"] = old["description"]
+    if old.get("alarms") and "alarms_first_run" not in old:
+        meta["alarms_first_run"] = sorted(old["alarms"])
+    elif "alarms_first_run" in old:
+        meta["alarms_first_run"] = old["alarms_first_run"]
     dst = os.path.join(VERIF, "seeded", "benign", name)
     os.makedirs(dst, exist_ok=True)
-    shutil.copy(patch, os.path.join(dst, "patch.diff"))
+    if os.path.abspath(patch) != os.path.abspath(os.path.join(dst, "patch.diff")):
+        shutil.copy(patch, os.path.join(dst, "patch.diff"))
     json.dump(meta, open(os.path.join(dst, "meta.json"), "w"), indent=1, ensure_ascii=False)
     print(name, "alarms:", sorted(alarms) or "none")
     for k, v in alarms.items():
